@@ -220,7 +220,7 @@ impl FileSpec {
         !self.basename.is_empty()
     }
     pub(crate) fn has_discriminant(&self) -> bool {
-        self.o_discriminant.is_some()
+        self.o_discriminant.as_ref().is_some_and(|d| !d.is_empty())
     }
     pub(crate) fn uses_timestamp(&self) -> bool {
         matches!(self.timestamp_cfg, TimestampCfg::Yes)
@@ -251,7 +251,8 @@ impl FileSpec {
         let mut fixed_name_part = self.basename.clone();
         fixed_name_part.reserve(50);
 
-        if let Some(discriminant) = &self.o_discriminant {
+        // (an empty discriminant is treated like no discriminant: no double underscore)
+        if let Some(discriminant) = self.o_discriminant.as_ref().filter(|d| !d.is_empty()) {
             append_underscore_if_not_empty(&mut fixed_name_part);
             fixed_name_part.push_str(discriminant);
         }
